@@ -230,14 +230,30 @@ enum cc_stat cc_stack_filter(CC_Stack *stack, bool (*predicate)(const void *), C
     CC_StackIter iter;
     cc_stack_iter_init(&iter, stack);
 
-    cc_stack_new(out);
+    CC_StackConf conf;
+    cc_stack_conf_init(&conf);
+    conf.mem_alloc  = stack->mem_alloc;
+    conf.mem_calloc = stack->mem_calloc;
+    conf.mem_free   = stack->mem_free;
+
+    CC_Stack *filtered;
+    enum cc_stat status = cc_stack_new_conf(&conf, &filtered);
+
+    if (status != CC_OK)
+        return status;
 
     void *e;
     while (cc_stack_iter_next(&iter, &e) != CC_ITER_END)
     {
-        if (predicate(e))
-            cc_stack_push(*out, e);
+        if (predicate(e)) {
+            status = cc_stack_push(filtered, e);
+            if (status != CC_OK) {
+                cc_stack_destroy(filtered);
+                return status;
+            }
+        }
     }
+    *out = filtered;
 
     return CC_OK;
 }
